@@ -48,7 +48,7 @@ def body(c, judge):
     consts = {"MaxDepth": 0, "Judge": '"%s"' % judge}
     consts.update({d: ("TRUE" if devs[d] else "FALSE") for d in TRACE_DEVS})
     res = c.validate("Trace_TensorOps", tr, chunk=250, constants=consts)
-    c.judge(tr, res, describe=lambda t: {"init": t[0]["init"], "prog": [e["o"] for e in t[1:]]})
+    c.judge(tr, res, describe=lambda t: {"init": t[0]["init"], "prog": t[0].get("prog") or [e["o"] for e in t[1:]]})
     ops = {}
     steps = 0
     raised = 0
